@@ -147,7 +147,9 @@ class Rig:
         factory = KINDS[kind][0]
 
         def rec(h, name, old, new):
-            log[h].append((name, old, new))
+            # (also what the attribute holds while the handler runs)
+            log[h].append((name, old, new,
+                           rig.o.__dict__.get("x", MISSING)))
             if rig.raiser == h:
                 raise RuntimeError("handler %s fails" % h)
 
@@ -346,7 +348,7 @@ def step(ctx, rig, ev, hist):
                 bad("event-count", "%s called %d times for an Event "
                     "assignment" % (h, len(calls)))
                 continue
-            name, old, new = calls[0]
+            name, old, new = calls[0][:3]
             if old is not Undefined:
                 bad("event-old", "%s got old=%r for an Event" % (h, old))
             if new is not exp_new and not (type(new) is type(exp_new)
@@ -394,9 +396,14 @@ def step(ctx, rig, ev, hist):
                    "default" if old_is_default else safe_repr(before),
                    safe_repr(after)))
             continue
-        for name, old, new in calls:
+        for name, old, new, held in calls:
             if name != "x":
                 bad("name", "%s got name %r" % (h, name))
+            if held is not new:
+                bad("not-yet-readable", "while %s ran, the attribute held "
+                    "%s, not the reported new value %s" % (
+                        h, "nothing" if held is MISSING else safe_repr(held),
+                        safe_repr(new)))
             if new is not after:
                 bad("new", "%s got new=%s but %s is readable after"
                     % (h, safe_repr(new), safe_repr(after)))
